@@ -19,6 +19,7 @@ Network.load_snapshot on arbitrary bytes (D3).
 """
 from __future__ import annotations
 
+import asyncio
 import itertools
 import os
 import struct
@@ -213,6 +214,9 @@ def collect_corpus() -> list[bytes]:
     out = []
     for name in capture.CORPUS_SCENARIOS:
         async def main(loop, name=name):
+            # (an exception that leaves an outside socket's receive path during the honest scenario is not the corpus'
+            # business: the outside-socket part of this check reports it)
+            loop.transport_escaped = []
             env = await capture.run_scenario(loop, name)
             data = [fl.data for fl in env.net.log]
             await env.close()
@@ -411,8 +415,79 @@ def fuzz_case(raw: bytes) -> dict:
     return {"node": "sim", "src": list(SOURCES[0]), "fuzz": raw}
 
 
+# ---- the other transports of a node: the outside sockets of its exit sockets --------------------------------------
+
+OUTSIDE_SEEDS = [
+    bytes.fromhex("0000041727101980") + b"\x00\x00\x00\x00" + b"\x12\x34\x56\x78",          # tracker connect request
+    b"\x00\x00\x00\x01" + b"\x12\x34\x56\x78" + b"\x00" * 12,                                    # tracker announce answer
+    b"d1:ad2:id20:abcdefghij0123456789e1:q4:ping1:t2:aa1:y1:qe",                                   # DHT query
+    b"\x21\x00\x12\x34" + b"\x00" * 16,                                                            # uTP SYN
+    b"\x00\x02" + b"\x5a" * 20 + b"\xf6" + b"\x00" * 30,                                            # IPv8 shaped
+    b"\xff" * 64, b"\x00" * 64, bytes(range(64)), b"\x00\x00\x00\x09" + b"\x07" * 60,
+]
+
+
+def _outside_shard(ctx: Ctx, shard: int, nshards: int, n: int) -> None:
+    """
+    "Whatever bytes arrive from whatever source, handing them to a node returns normally": the UDP sockets an exit
+    node opens towards the outside world are transports of the node too.
+    """
+    from ..tunnelsim import World
+    cfgs = [(fl, via) for fl in ((1, 2, 4), (1, 2), (1, 4), (1,)) for via in ("0.0.0.0", "::")]
+
+    def one(flags: tuple, via: str, datagrams: list) -> None:
+        async def main(loop):
+            loop.transport_escaped = []
+            w = World(loop, 2, flags=lambda i: set(flags) if i == 1 else {1, 2, 4})
+            try:
+                ek = w.nodes[1].key.pub().key_to_bin()
+                exit_peer = [p for p in w.nodes[0].overlay.candidates if p.public_key.key_to_bin() == ek][0]
+                c = await w.build_circuit(w.nodes[0], 1, seed=3, required_exit=exit_peer)
+                if c is None:
+                    raise HarnessError("circuit not built")
+                w.nodes[0].overlay.send_data(c.hop.address, c.circuit_id, ("5.5.5.5", 5555), ("0.0.0.0", 0),
+                                             b"d1:ad2:id20:abcdefghij0123456789e1:q4:ping1:t2:aa1:y1:qe")
+                await asyncio.sleep(0.3)
+                trs = [t for t in loop.transports if t.local_addr[0] == via and not t.closed]
+                if not trs:
+                    return
+                src = ("7.7.7.7", 7777) if via == "0.0.0.0" else ("2001:db8::7", 7777, 0, 0)
+                for d in datagrams:
+                    trs[0].inject(d, src)
+                    ctx.case(("outside", flags, via, d), len(d) in (8, 9, 10, 11, 12, 19, 20, 22, 23),
+                             cls="outside:%s:len%02d" % (via, min(len(d), 65)))
+                    if loop.transport_escaped:
+                        e = loop.transport_escaped[0][3]
+                        raise Violation("N1", "exception:outside_socket:" + type(e).__name__,
+                                        f"a {len(d)}-byte datagram {d[:16].hex()} from the outside world on the exit's "
+                                        f"{via} socket (exit flags {sorted(flags)}) raised {type(e).__name__}: {e} into the "
+                                        f"transport", {"outside": {"flags": list(flags), "via": via, "hex": d.hex()}})
+                await asyncio.sleep(0.1)
+            finally:
+                await w.close()
+        vloop.run(main)
+
+    fixed = []
+    for sd in OUTSIDE_SEEDS:
+        fixed += [sd[:k] for k in range(len(sd) + 1)]
+    for k, (flags, via) in enumerate(cfgs):
+        if k % nshards != shard:
+            continue
+        try:
+            one(flags, via, fixed)
+        except Violation as v:
+            ctx.violation(v)
+    from hypothesis import strategies as st
+    strat = st.tuples(st.sampled_from(cfgs), st.lists(st.one_of(
+        st.binary(max_size=64),
+        st.tuples(st.sampled_from(OUTSIDE_SEEDS), st.integers(0, 64), st.binary(max_size=8)).map(
+            lambda t: t[0][:t[1]] + t[2])), min_size=1, max_size=30))
+    hyp_run(ctx, "outside", strat, lambda x: one(x[0][0], x[0][1], x[1]), n)
+
+
 def run(ctx: Ctx) -> None:
     shard_run(ctx, _node_shard, extra=(not ctx.quick,))
+    shard_run(ctx, _outside_shard, extra=(6 if ctx.quick else 300,))
     shard_run(ctx, _hyp_node_shard, extra=(150 if ctx.quick else 5000,))
     try:
         from .. import c03_decode  # noqa: F401
@@ -430,6 +505,32 @@ def replay(ctx: Ctx, case: dict) -> None:
     if "decode" in case:
         from .. import c03_decode
         c03_decode.replay_decode(case)
+        return
+
+    if "outside" in case:
+        from ..tunnelsim import World
+        o = case["outside"]
+
+        async def omain(loop):
+            loop.transport_escaped = []
+            w = World(loop, 2, flags=lambda i: set(o["flags"]) if i == 1 else {1, 2, 4})
+            try:
+                ek = w.nodes[1].key.pub().key_to_bin()
+                exit_peer = [p for p in w.nodes[0].overlay.candidates if p.public_key.key_to_bin() == ek][0]
+                c = await w.build_circuit(w.nodes[0], 1, seed=3, required_exit=exit_peer)
+                w.nodes[0].overlay.send_data(c.hop.address, c.circuit_id, ("5.5.5.5", 5555), ("0.0.0.0", 0),
+                                             b"d1:ad2:id20:abcdefghij0123456789e1:q4:ping1:t2:aa1:y1:qe")
+                await asyncio.sleep(0.3)
+                trs = [t for t in loop.transports if t.local_addr[0] == o["via"] and not t.closed]
+                src = ("7.7.7.7", 7777) if o["via"] == "0.0.0.0" else ("2001:db8::7", 7777, 0, 0)
+                if trs:
+                    trs[0].inject(bytes.fromhex(o["hex"]), src)
+                if loop.transport_escaped:
+                    e = loop.transport_escaped[0][3]
+                    raise Violation("N1", "exception:outside_socket:" + type(e).__name__, f"{type(e).__name__}: {e}", case)
+            finally:
+                await w.close()
+        vloop.run(omain)
         return
 
     async def main(loop):
